@@ -61,7 +61,9 @@ func checkReuse(c reuseCase) error {
 		return nil
 	}
 	labelCounts := map[int]bool{}
+	lookalike := false
 	for _, set := range c.Sets {
+		lookalike = lookalike || hasLookalike(set[0].Name)
 		n := len(set[0].Name)
 		if isWild(set[0].Name) {
 			n--
@@ -69,7 +71,8 @@ func checkReuse(c reuseCase) error {
 		labelCounts[n] = true
 	}
 	pbt.Note([]byte(fmt.Sprintf("%v|%d|%d|%x|%d|%d", c.Sets, c.Alg, c.KeySlot, c.KeySeed, c.PreLabels, c.OrigTTL)), len(c.Sets) >= 2 || c.PreLabels != 0,
-		fmt.Sprintf("rrsets=%d", len(c.Sets)), fmt.Sprintf("distinct-label-counts=%d", len(labelCounts)), fmt.Sprintf("prelabels-set=%v", c.PreLabels != 0), fmt.Sprintf("alg=%d", c.Alg))
+		fmt.Sprintf("rrsets=%d", len(c.Sets)), fmt.Sprintf("distinct-label-counts=%d", len(labelCounts)), fmt.Sprintf("prelabels-set=%v", c.PreLabels != 0), fmt.Sprintf("alg=%d", c.Alg),
+		fmt.Sprintf("keytag-fold-carries=%v", tagFoldCarries(kw.keyRdata())), fmt.Sprintf("octets-that-read-like-an-escape=%v", lookalike))
 
 	sig := &dns.RRSIG{Hdr: dns.RR_Header{Name: wm.EscName(c.PreOwner), Rrtype: dns.TypeRRSIG, Class: c.PreClass, Ttl: 7},
 		TypeCovered: c.PreType, Labels: c.PreLabels, Signature: base64.StdEncoding.EncodeToString(c.PreSig),
@@ -130,6 +133,10 @@ func genReuse(t *rapid.T) reuseCase {
 	c := reuseCase{}
 	no := gen.NameOpts{MaxLabs: 2, MaxLabel: 8, Plain: rapid.IntRange(0, 2).Draw(t, "plain") > 0}
 	zone := gen.Name(t, no)
+	look := rapid.IntRange(0, 3).Draw(t, "lookalike") == 0 // round 9: octets that read like an escape (escapeLookalike)
+	if look && len(zone) > 0 && rapid.Bool().Draw(t, "lookzone") {
+		zone[0] = withLookalike(zone[0], escapeLookalike(t), rapid.IntRange(0, 2).Draw(t, "lookwhere"))
+	}
 	c.Signer = zone
 	class := rapid.SampledFrom([]uint16{1, 1, 1, 3, 254}).Draw(t, "class")
 	n := rapid.IntRange(1, 4).Draw(t, "nsets")
@@ -138,6 +145,9 @@ func genReuse(t *rapid.T) reuseCase {
 		var sub wm.Name
 		for j, k := 0, rapid.IntRange(0, 4).Draw(t, "sublabels"); j < k; j++ {
 			l := gen.Label(t, no)
+			if look && rapid.IntRange(0, 2).Draw(t, "looksub") == 0 {
+				l = withLookalike(l, escapeLookalike(t), rapid.IntRange(0, 2).Draw(t, "lookwhere"))
+			}
 			if l[0] == '*' {
 				l[0] = 'x'
 			}
@@ -164,6 +174,17 @@ func genReuse(t *rapid.T) reuseCase {
 	c.KeySlot = rapid.IntRange(0, ref.RSAPoolSize()-1).Draw(t, "slot")
 	c.KeySeed = rapid.SliceOfN(rapid.Byte(), 1, 16).Draw(t, "seed")
 	c.KeyFlags = 0x0100 | uint16(rapid.IntRange(0, 1).Draw(t, "sep"))
+	if rapid.IntRange(0, 7).Draw(t, "tagcarry") == 0 {
+		// round 9: a key whose tag computation is in the carrying case (flagsForTagCarry)
+		pick := rapid.IntRange(0, 1<<12).Draw(t, "tagcarrypick")
+		if priv, err := privFor(c.Alg, c.KeySlot, c.KeySeed); err == nil {
+			if oct, err := ref.KeyOctets(c.Alg, ref.PublicOf(priv)); err == nil {
+				if f, ok := flagsForTagCarry(c.Alg, oct, pick); ok {
+					c.KeyFlags = f
+				}
+			}
+		}
+	}
 	c.Incep, c.Expir = rapid.Uint32().Draw(t, "incep"), rapid.Uint32().Draw(t, "expir")
 	if rapid.Bool().Draw(t, "explicitttl") {
 		c.OrigTTL = rapid.Uint32Range(1, 1<<32-1).Draw(t, "origttl")
